@@ -8,13 +8,13 @@ ID = "C06"
 LEVEL = "exploration"
 TECHNIQUE = "runtime monitoring on a virtual-time simulated network: interleaved scripted Block1/Block2 request sequences (in order, restart, repeat, skip, last-first, wrong sizes, beyond range, SZX changes, idle gaps around the state lifetime, further blocks after / during the handling of a completed upload, two or three overlapping block-0 requests for one key whose renderings take different times) from 1-3 raw endpoints against a resource whose handler takes 0 / 33 / 66 ms per invocation; oracle = reference model per (endpoint, method, cache-key) stepped over the request history in arrival order, compared with the handler log (request as seen on entry and again after the handler's await) and the wire; TimeoutDict lifetime invariant checked at a hook"
 LEVEL_TEXT = "Each generated history is stepped through a reference model of assemblies and renderings; every response (code, echoed Block1, Block2 option, payload slice) and every handler invocation (body bytes, on entry and after its await) must agree, accepting a set of outcomes only where the statement leaves a choice. An assembly ends with its final block (a further block finds no transfer: 4.08); later blocks are slices of the rendering made for the block-0 request that arrived last, whichever rendering finished last."
-LEVEL_NOTE = "Trusted: the reference model in checks/c06.py, simnet, refcodec. Inside the (T, 2T) expiry band either outcome is accepted and the model resynchronises from the observed answer. A mis-sized block 0 and NUM>0 on a rendering that fitted one block accept {4.00, 4.08} / {2.31, 4.00} as noted in DESIGN.md. Requests overlap a running handler only in two shapes (continuations of the upload whose handler is running; block-0 requests of one key 10 ms apart, later blocks only when all handlers have returned); a later block that arrives while the latest block-0 request is still being rendered may be answered 4.08 or with the right slice. Handler invocations are attributed to the request being delivered in the virtual instant they begin."
+LEVEL_NOTE = "Trusted: the reference model in checks/c06.py, simnet, refcodec. Inside the (T, 2T) expiry band either outcome is accepted and the model resynchronises from the observed answer. A mis-sized block 0 and NUM>0 on a rendering that fitted one block accept {4.00, 4.08} / {2.31, 4.00} as noted in DESIGN.md. Requests overlap a running handler only in two shapes (continuations of the upload whose handler is running; block-0 requests of one key 10 ms apart, later blocks when all handlers have returned, or one 10 ms after the latest block-0 request); a later block that arrives while the latest block-0 request is still being rendered may be answered 4.08 or with the right slice. Handler invocations are attributed to the request being delivered in the virtual instant they begin."
 RULE = (
     "one case = one history of 1-4 interleaved flows; flow = (endpoint, method, query, body length, SZX, upload script, download script, idle gaps, handler durations, overlap group). "
     "Non-trivial = at least one multi-block transfer with a deviation (restart/repeat/skip/size error/expiry/beyond range/block after completion/overlapping block-0 requests) or two interleaved flows; distinct = distinct tuples of flow scripts, size classes and handler durations"
 )
 ASSUMPTIONS = ["handlers return at once or after 33 / 66 ms (below EMPTY_ACK_DELAY: every response is piggy-backed); requests are 10 ms apart, so a request arrives while a handler is at work only where the generator places it", "MAX_TRANSMIT_WAIT of the default TransportTuning is the state lifetime (read at run time)"]
-_REQ = {"response_matches_model": 2000, "handler_body": 300, "continue_echo": 500, "incomplete_408": 100, "block2_slice": 300, "expiry": 40, "timeoutdict_tick": 20, "continuation_after_completion": 120, "continuation_during_handler": 40, "slow_handler_body": 300, "overlapping_block0": 150, "later_block_after_overlap": 400, "later_block_older_finished_later": 200}
+_REQ = {"response_matches_model": 2000, "handler_body": 300, "continue_echo": 500, "incomplete_408": 100, "block2_slice": 300, "expiry": 40, "timeoutdict_tick": 20, "continuation_after_completion": 120, "continuation_during_handler": 40, "slow_handler_body": 300, "overlapping_block0": 150, "later_block_after_overlap": 400, "later_block_older_finished_later": 200, "later_block_while_rendering": 40}
 REQUIRED_MONITORS = {"quick": _REQ, "thorough": {k: v * 20 for k, v in _REQ.items()}}
 
 UP = ["inorder", "inorder", "restart", "restart-single", "repeat", "skip", "lastfirst", "wrongsize", "oversize-final", "unknown", "szx-change", "after-final", "during-handler", "during-handler"]
@@ -190,6 +190,12 @@ def gen_flow(r, fid):
             g["delay"] = r.choice([0.066, 0.066, 0.033, 0.0] if j == 0 else [0.0, 0.0, 0.033, 0.066])
             s2 = 1 << ((g.get("b2") or (0, False, 6))[2] + 4)
             g["rlen"] = r.choice([None, None, None, s2 + 1, 3 * s2, 3 * s2 + 5, 1, 1125, 2500])
+        if r.random() < 0.5:
+            # a later block asked for 10 ms after the latest block-0 request, while that one is (mostly) still being
+            # rendered: there is no rendering of the latest block-0 request yet
+            group[-1]["delay"] = r.choice([0.033, 0.066, 0.066, 0.0])
+            s2x = (group[-1].get("b2") or (0, False, 6))[2]
+            steps.append({"b1": None, "payload": b"", "b2": (r.choice([1, 1, 2]), False, r.choice([s2x, s2x, dsz])), "probe": True})
         i0 = [i for i, s in enumerate(steps) if s is group[0]][0]
         for s in steps[i0:-1]:
             s["hold"] = True
@@ -609,11 +615,16 @@ def judge(h, box, res, rep, case, T, EPS):
             deviation = deviation or fl["down"] not in ("inorder", "none")
             pres = model.presence(model.ren, K, now)
             hist = model.hist.get(K, [])
-            if hist and hist[-1]["finish"] > now + 1e-9 and code == rc.c(4, 8):
-                # the handler is still at work on the latest block-0 request of this key: there is no rendering yet
-                # that a later block could be cut from (a server that waits and then serves the slice is judged below)
-                rep.count("later_block_while_rendering")
-                continue
+            if hist and hist[-1]["finish"] > now + 1e-9:
+                rep.monitor("later_block_while_rendering")
+                if code == rc.c(4, 8):
+                    # the handler is still at work on the latest block-0 request of this key: there is no rendering yet
+                    # that a later block could be cut from (a server that waits and then serves the slice is judged below)
+                    continue
+                for e in hist[:-1]:
+                    if code in (rc.c(2, 5), rc.c(2, 4)) and e["bytes"] != hist[-1]["bytes"] and num2 * size2 < len(e["bytes"]) and m.payload == e["bytes"][num2 * size2 : (num2 + 1) * size2] and m.payload != hist[-1]["bytes"][num2 * size2 : (num2 + 1) * size2]:
+                        rep.violation("block2/served-from-superseded-rendering/while-rendering", "a later block that arrived while the latest block-0 request was still being rendered was answered (%s) with a slice of an earlier rendering instead of 4.08 (or the slice of the rendering under way)" % rc.code_str(code), wit(i), case)
+                        return
             if hist and any(e["finish"] > hist[-1]["arrive"] + 1e-9 for e in hist[:-1]):
                 # the latest block-0 request arrived while an earlier one of this key was still being rendered
                 rep.monitor("later_block_after_overlap")
